@@ -133,6 +133,10 @@ def make_pool():
     P["cov8"] = g.dot(g.T) + numpy.eye(8)
     c32 = numpy.tril(P["cov8"]).astype(numpy.float32)
     P["cov8_f32_lower"] = c32
+    asym = P["cov8"].copy()
+    asym[3, 6] += 0.37          # a measured (one-frame-lag) covariance estimate is not exactly symmetric
+    asym[7, 2] -= 0.11
+    P["cov8_asym"] = asym
     P["r0s"] = numpy.array([0.1, 0.15, 0.2])
     P["slope_meas"] = numpy.sin(numpy.arange(40.).reshape(10, 4))
     P["rr"] = numpy.linspace(0., 1.2, 7)
@@ -157,7 +161,19 @@ def pool_state(P, modules):
     st = numpy.random.get_state()
     c["numpy.global_rng"] = digest([st[0], st[1], st[2], st[3], st[4]])
     c["module_globals"] = ss.module_globals_digest(modules)
+    c["process_settings"] = process_settings()
     return c
+
+
+def process_settings():
+    """process-wide settings a library call could leave changed for everybody else"""
+    import decimal
+    import locale
+    import warnings
+    po = numpy.get_printoptions()
+    return repr((sorted(numpy.geterr().items()), sorted((k, repr(v)) for k, v in po.items()),
+                 len(warnings.filters), sys.getrecursionlimit(), decimal.getcontext().prec,
+                 locale.getlocale(), os.getcwd(), numpy.get_default_printoptions() if hasattr(numpy, "get_default_printoptions") else 0))
 
 
 def aotools_modules():
@@ -482,6 +498,10 @@ def recipes():
         return ms
     add("v:CovarianceMatrix:gs_moved", A + "turbulence.slopecovariance.CovarianceMatrix", covmat2)
     add("v:CovarianceMatrix:rebuilt_3x", A + "turbulence.slopecovariance.CovarianceMatrix", covmat3)
+    add("v:create_tomographic_covariance_reconstructor:asym", A + "turbulence.slopecovariance.create_tomographic_covariance_reconstructor",
+        lambda P: sc.create_tomographic_covariance_reconstructor(P["cov8_asym"], 2, 0.01))
+    add("v:mirror_covariance_matrix:view", A + "turbulence.slopecovariance.mirror_covariance_matrix",
+        lambda P: sc.mirror_covariance_matrix(P["cov8_f32_lower"][:6, :6]))
     add("v:create_tomographic_covariance_reconstructor:rc", A + "turbulence.slopecovariance.create_tomographic_covariance_reconstructor",
         lambda P: sc.create_tomographic_covariance_reconstructor(P["cov8"], 2, 0.3))
     add("v:calculate_structure_function:step2", A + "turbulence.slopecovariance.calculate_structure_function",
@@ -740,6 +760,8 @@ def evaluate(p):
         args_changed = [c for c in r["changed"] if c.startswith("pool:")]
         o.check("arguments_unchanged", not args_changed, sub=rid, detail=args_changed)
         o.check("global_rng_untouched", "numpy.global_rng" not in r["changed"], sub=rid)
+        o.check("process_settings_untouched", "process_settings" not in r["changed"], sub=rid,
+                detail="numpy error state / print options / warning filters / recursion limit / cwd changed by the call")
         if "module_globals" in r["changed"]:
             # a module-level cache is hidden state but only a violation if it changes results: it makes the
             # state space larger than one state, which the history phases then explore
